@@ -97,6 +97,16 @@ struct S2 {
 }
 impl Fam for S2 {}
 
+/// family 3: an array with two-digit indices, a compound leaf and a string long enough to exceed 128 bytes
+#[derive(Tree, Clone, Default)]
+struct S3 {
+    lut: [Leaf<u8>; 12],
+    trip: Leaf<[i16; 3]>,
+    text: Leaf<heapless::String<256>>,
+    k: Leaf<u8>,
+}
+impl Fam for S3 {}
+
 // ---------------------------------------------------------------------------------------------
 // Token encoding helpers
 // ---------------------------------------------------------------------------------------------
@@ -200,6 +210,8 @@ struct World {
     log: Vec<String>,
     auto_ack: bool,
     auto_suback: bool,
+    /// encode the properties of a request PUBLISH in reverse order (user property, correlation data, response topic)
+    props_reversed: bool,
     pingresp: bool,
     sess_next: bool,
     recvmax_next: u16,
@@ -226,6 +238,7 @@ impl World {
             log: Vec::new(),
             auto_ack: true,
             auto_suback: true,
+            props_reversed: false,
             pingresp: true,
             sess_next: false,
             recvmax_next: 0,
@@ -350,20 +363,27 @@ impl World {
             self.out_ordinals.insert(pid, self.out_count);
             body.extend_from_slice(&pid.to_be_bytes());
         }
-        let mut props = Vec::new();
+        let mut plist: Vec<Vec<u8>> = Vec::new();
         if let Some(rt) = resp {
-            props.push(0x08);
-            Self::push_str(&mut props, rt.as_bytes());
+            let mut e = vec![0x08];
+            Self::push_str(&mut e, rt.as_bytes());
+            plist.push(e);
         }
         if let Some(cd) = cd {
-            props.push(0x09);
-            Self::push_str(&mut props, cd);
+            let mut e = vec![0x09];
+            Self::push_str(&mut e, cd);
+            plist.push(e);
         }
         if let Some((k, v)) = user {
-            props.push(0x26);
-            Self::push_str(&mut props, k.as_bytes());
-            Self::push_str(&mut props, v.as_bytes());
+            let mut e = vec![0x26];
+            Self::push_str(&mut e, k.as_bytes());
+            Self::push_str(&mut e, v.as_bytes());
+            plist.push(e);
         }
+        if self.props_reversed {
+            plist.reverse();
+        }
+        let props: Vec<u8> = plist.concat();
         Self::push_varint(&mut body, props.len());
         body.extend_from_slice(&props);
         body.extend_from_slice(payload);
@@ -792,6 +812,10 @@ impl<S: Fam> Driver<'_, S> {
             self.world.borrow_mut().auto_ack = false;
         } else if ev == "auto1" {
             self.world.borrow_mut().auto_ack = true;
+        } else if ev == "prop0" {
+            self.world.borrow_mut().props_reversed = false;
+        } else if ev == "prop1" {
+            self.world.borrow_mut().props_reversed = true;
         } else if ev == "suback0" {
             self.world.borrow_mut().auto_suback = false;
         } else if ev == "suback1" {
@@ -916,6 +940,7 @@ pub fn run(args: &[&str]) -> String {
         0 => run_family::<S0>(bufsize, events),
         1 => run_family::<S1>(bufsize, events),
         2 => run_family::<S2>(bufsize, events),
+        3 => run_family::<S3>(bufsize, events),
         _ => "ARGERR".to_string(),
     }
 }
